@@ -120,6 +120,7 @@ def fuzz_shards(res, bins, payload, seed, valgrind_execs=1500, miri_execs=240, m
                     r = json.loads(detail.strip().splitlines()[-1])
                     res.counters["%s-execs" % tool] += r["execs"]
                     res.evaluations += r["execs"]
+                    res.distinct_extra += r.get("distinct", 0)
                     for v in r["violations"]:
                         from .checks import c03
                         res.add(c03.classify(v), {"tool": tool, "what": v["what"], "detail": v["detail"], "mode": v["mode"], "offset": v["offset"]},
